@@ -105,6 +105,11 @@ def _check_type(value: Any, type_: Any, err: str, type_vars: Dict[TypeVar_, Any]
     if type_ is None:
         return value == type_
     elif isinstance(type_, str):
+        resolved = (context or {}).get(type_)
+
+        if isinstance(resolved, type):
+            return isinstance(value, resolved)  # the name is known in the context: check against that very class
+
         return any(cls.__name__ == type_ for cls in type(value).__mro__)
 
     try:
